@@ -42,20 +42,20 @@ type Run struct {
 	t       *testing.T
 	start   time.Time
 
-	mu          sync.Mutex
-	counters    map[string]int64
-	samples     []any
-	sampleSeen  map[string]bool
-	viols       []violation
-	violKeys    map[string]int
-	extra       map[string]any
-	rule        string
-	exhaustive  []string
-	assumptions []string
-	panics      int64
-	panicSample string
+	mu              sync.Mutex
+	counters        map[string]int64
+	samples         []any
+	sampleSeen      map[string]bool
+	viols           []violation
+	violKeys        map[string]int
+	extra           map[string]any
+	rule            string
+	exhaustive      []string
+	assumptions     []string
+	panics          int64
+	panicSample     string
 	fallbackSamples int
-	inconcl     []string
+	inconcl         []string
 
 	evals    atomic.Int64
 	nontrivN atomic.Int64 // distinct by construction
@@ -84,13 +84,21 @@ func newRun(t *testing.T, prop string) *Run {
 	return r
 }
 
-func (r *Run) Rule(s string)           { r.rule = s }
-func (r *Run) Exhaustive(part string)  { r.mu.Lock(); r.exhaustive = append(r.exhaustive, part); r.mu.Unlock() }
-func (r *Run) Assume(s string)         { r.mu.Lock(); r.assumptions = append(r.assumptions, s); r.mu.Unlock() }
-func (r *Run) Set(k string, v any)     { r.mu.Lock(); r.extra[k] = v; r.mu.Unlock() }
-func (r *Run) Inconclusive(why string) { r.mu.Lock(); r.inconcl = append(r.inconcl, why); r.mu.Unlock() }
-func (r *Run) IsRace() bool            { return r.Variant == "race" || r.Variant == "yield" }
-func (r *Run) Replaying() bool         { return os.Getenv("VERIF_REPLAY") != "" }
+func (r *Run) Rule(s string) { r.rule = s }
+func (r *Run) Exhaustive(part string) {
+	r.mu.Lock()
+	r.exhaustive = append(r.exhaustive, part)
+	r.mu.Unlock()
+}
+func (r *Run) Assume(s string)     { r.mu.Lock(); r.assumptions = append(r.assumptions, s); r.mu.Unlock() }
+func (r *Run) Set(k string, v any) { r.mu.Lock(); r.extra[k] = v; r.mu.Unlock() }
+func (r *Run) Inconclusive(why string) {
+	r.mu.Lock()
+	r.inconcl = append(r.inconcl, why)
+	r.mu.Unlock()
+}
+func (r *Run) IsRace() bool    { return r.Variant == "race" || r.Variant == "yield" }
+func (r *Run) Replaying() bool { return os.Getenv("VERIF_REPLAY") != "" }
 
 // visit decides whether item idx of an enumerated product is part of this run's 1/stride sample.
 // A multiplicative hash of (idx, seed) is used instead of idx%stride: plain strides alias with the
@@ -134,9 +142,9 @@ type Local struct {
 	n1, n2 int64
 }
 
-func (l *Local) Eval()              { l.evals++ }
-func (l *Local) EvalN(n int64)      { l.evals += n }
-func (l *Local) Count(k string)     { l.counters[k]++ }
+func (l *Local) Eval()                 { l.evals++ }
+func (l *Local) EvalN(n int64)         { l.evals += n }
+func (l *Local) Count(k string)        { l.counters[k]++ }
 func (l *Local) Add(k string, n int64) { l.counters[k] += n }
 
 // Nontrivial counts one case that is non-trivial and distinct *by construction*.
@@ -385,25 +393,25 @@ func (r *Run) Finish(minNontrivial int64) {
 		observed[k] = r.counters[k]
 	}
 	cov := map[string]any{
-		"evaluations":         ev,
-		"distinct_nontrivial": distinct,
+		"evaluations":             ev,
+		"distinct_nontrivial":     distinct,
 		"distinct_is_lower_bound": r.nontriv.full(),
-		"rule":                r.rule,
-		"samples":             r.samples,
-		"exhaustive":          len(r.exhaustive) > 0,
-		"exhaustive_parts":    r.exhaustive,
-		"observed":            observed,
-		"panics_observed":     r.panics,
-		"gomaxprocs":          runtime.GOMAXPROCS(0),
-		"go_version":          runtime.Version(),
+		"rule":                    r.rule,
+		"samples":                 r.samples,
+		"exhaustive":              len(r.exhaustive) > 0,
+		"exhaustive_parts":        r.exhaustive,
+		"observed":                observed,
+		"panics_observed":         r.panics,
+		"gomaxprocs":              runtime.GOMAXPROCS(0),
+		"go_version":              runtime.Version(),
 	}
 	for k, v := range r.extra {
 		cov[k] = v
 	}
 	out := map[string]any{
-		"coverage":        cov,
-		"assumptions":     r.assumptions,
-		"violations_list": r.viols,
+		"coverage":         cov,
+		"assumptions":      r.assumptions,
+		"violations_list":  r.viols,
 		"violations_total": r.nViol.Load(),
 	}
 	if len(r.inconcl) > 0 {
